@@ -342,6 +342,19 @@ def flatDecls : Tree → List FDecl
   | .field f rest => f :: flatDecls rest
   | .embed _ _ _ rest => flatDecls rest
 
+/-- every field declaration, promoted ones included (an accessor-mode type may embed another one: its
+    getter/setter interfaces embed the embedded type's, so the promoted accessors are visible too) -/
+def allDecls : Tree → List FDecl
+  | .nil => []
+  | .field f rest => f :: allDecls rest
+  | .embed _ _ body rest => allDecls body ++ allDecls rest
+
+/-- the C02 tree of an accessor-mode struct (embedded structs carry no `new` mark of their own) -/
+def ctorTreeOf : Tree → Ctor.Tree
+  | .nil => .nil
+  | .field f rest => .field { name := f.name, ptype := "", newMark := f.newMark } (ctorTreeOf rest)
+  | .embed n p body rest => .embed n n p false (ctorTreeOf body) (ctorTreeOf rest)
+
 /-- the C02 tree of a flat accessor-mode struct -/
 def ctorTree : List FDecl → Ctor.Tree
   | [] => .nil
@@ -359,8 +372,8 @@ def FDecl.hasGet (f : FDecl) : Bool := !isExported f.name && (f.get || !f.set)
 def FDecl.hasSet (f : FDecl) : Bool := !isExported f.name && (f.set || !f.get)
 
 def newView (t : Tree) : NewView :=
-  let ds := flatDecls t
-  let g := Ctor.gen (ctorTree ds)
+  let ds := allDecls t
+  let g := Ctor.gen (ctorTreeOf t)
   let pm := litParamMap [] g.body
   let tyOf := fun (n : String) => ((ds.find? (fun d => d.name == n)).map (·.ty)).getD (.basic "int")
   let params := g.params.filterMap (fun (pn, _) =>
@@ -513,7 +526,7 @@ def goResolve (t : Tree) (name : String) : Option Leaf :=
 
 /-- the struct leaf a (pseudo-)field stands for: accessors reach the backing field -/
 def resolveField (t : Tree) (f : Field) : Option Leaf :=
-  if f.isGet || f.isSet then (leavesOf t).find? (fun l => l.depth == 0 && pascalS l.decl.name == f.backing)
+  if f.isGet || f.isSet then (leavesOf t).find? (fun l => pascalS l.decl.name == f.backing)
   else goResolve t f.name
 
 inductive V where
